@@ -1,13 +1,13 @@
 SPECIFICATION Spec
 CONSTANTS
-  Cats = {1, 2}
+  Cats = {0, 2}
   Types = {1}
   Langs = {0, 1}
   Names = {0, 1}
-  Feats = {1, 2, 3}
+  Feats = {0, 1, 2}
   FTypes = {1, 2}
   Vars = {1, 2}
-  Vals = {1, 2}
+  Vals = {0, 1}
   MaxIds = 2
   MaxFeats = 3
   MaxFields = 1
